@@ -152,7 +152,8 @@ func emitCase(out *gal.Out, mode string, fd *FileDef, ei int, res *pkgResult, pl
 		}
 	}
 	jc.Obs = obs
-	head := "k_def := " + gDef(e) + "; k_opts := " + gOpts(fd.Opts) + "; k_outcome := " + gal.Nat(outcome)
+	pre := map[string]string{"c04": "k_", "c05": "k5_", "c12": "k12_"}[mode]
+	head := pre + "def := " + gDef(e) + "; " + pre + "opts := " + gOpts(fd.Opts) + "; " + pre + "outcome := " + gal.Nat(outcome)
 	var g string
 	switch mode {
 	case "c04":
